@@ -105,6 +105,20 @@ theorem convert_total_3d (null : α) (S : Nat) (hS : 0 < S) (val : Nat → Optio
         lookupKS null ⟨3, S, 1, 1, true, false, false⟩ r s 0 0 = some ((val s).getD null) :=
   Total.convert_total_3d null S hS val
 
+/-- **C01 without the premise (5-D result with a single time point, shape (x,y,z,1,V)):** the
+    volumes are merged directly along the vector axis -/
+theorem convert_total_5d_t1 (null : α) (S V : Nat) (hS : 0 < S) (hV : 0 < V)
+    (val : Nat → Nat → Option α) :
+    ∃ (vol : Nat → KeyState α) (r : KeyState α),
+      (∀ v, v < V →
+        mergeSliceK null ⟨3, 1, 1, 1, true, false, false⟩
+          ((List.range S).map fun s => fileKS (val s v)) = .ok (vol v)) ∧
+      mergeVecK null ⟨5, S, 1, 1, true, false, true⟩ ⟨3, S, 1, 1, true, false, false⟩
+          ((List.range V).map vol) = .ok r ∧
+      ∀ s v, s < S → v < V →
+        lookupKS null ⟨5, S, 1, V, true, false, true⟩ r s 0 v = some ((val s v).getD null) :=
+  Total.convert_total_5d_t1 null S V hS hV val
+
 /-- **C01, end to end (stack model ∘ per-key merges):** the files of a complete grid, added in any
     order, each carrying a value (or not) for a key; `to_nifti` sorts them, reverses every volume's
     files when the voxel order flips the slice axis, and merges volume by volume, along time, along
